@@ -38,6 +38,7 @@ struct Viol { bool set = false; std::string cls, site, msg; };
 struct Totals {
     uint64_t runs = 0, events = 0, accesses = 0, preemptions = 0, switches = 0, ops = 0, sync_ops = 0;
     uint64_t strategy[5] = {0};     // serial, rare, medium, frequent preemption, window-targeted
+    uint64_t fresh_reference_runs = 0, shared_lifo_runs = 0, reference_processes = 0;      // counted by the parent from the plan (run_forked)
     uint64_t locale_runs = 0, libc_reads = 0, libc_writes = 0, alloc_faults_planned = 0, alloc_faults_fired = 0;   // runs under a non-"C" process locale; modelled accesses to process-wide libc state
 };
 struct RunResult { Viol viol; uint64_t sig = 0, sched_sig = 0; bool nontrivial = false; RunStats stats; std::vector<Switch> recorded; };
